@@ -99,7 +99,7 @@ class _Rewriter(ast.NodeTransformer):
         self.sym_containers = sym_containers
         self.nonlocals = set(nonlocals)
         self.cut_loops = cut_loops  # ordinal -> key
-        self.native_loops = set(native_loops)
+        self.native_loops = native_loops if native_loops == "all" else set(native_loops)
         self.cut_comps = cut_comps
         self.loop_ord = 0
         self.comp_ord = 0
@@ -150,7 +150,7 @@ class _Rewriter(ast.NodeTransformer):
         k = self.loop_ord
         self.loop_ord += 1
         self.loops_seen.append(k)
-        if k in self.native_loops:
+        if self.native_loops == "all" or k in self.native_loops:
             self.generic_visit(node)
             return node
         if self.cut_loops == "auto":
